@@ -107,11 +107,19 @@ func C17(c *core.Ctx) {
 			lcLen := 0
 			if nc > 0 {
 				// find data: the specification allows 1 or 3 octets; take what the real code produced
+				// (short data can also match inside a three-octet Lc field - 00 00 01 | 00 -: among the positions where
+				// the data matches, prefer the one whose remainder has the width that goes with that Lc width)
 				lcLen = -1
 				for _, k := range []int{1, 3, 0, 2} {
 					if 4+k+nc <= len(got) && bytes.Equal(got[4+k:4+k+nc], data) {
-						lcLen = k
-						break
+						rest := len(got) - (4 + k + nc)
+						fits := (k == 1 && rest <= 1) || (k == 3 && (rest == 0 || rest == 2))
+						if lcLen < 0 || fits {
+							lcLen = k
+						}
+						if fits {
+							break
+						}
 					}
 				}
 			}
